@@ -358,3 +358,88 @@ func notePool(reused, dropped bool) {
 		st.PoolDrops++
 	}
 }
+
+// ---------------------------------------------------------------------------
+// sync.Map.Range seam. A sync.Map is ranged in the iteration order of a Go map;
+// instrumented code ranges it through this function: keys in canonical order
+// with the permutation from the tape applied, like Keys. Keys without a
+// canonical order (pointers, mixed types) cannot be controlled: that is
+// reported as a limit of the model (the check then runs the code natively).
+
+// SyncMapRange is the replacement of (*sync.Map).Range in instrumented code.
+func SyncMapRange(site int32, m *sync.Map, f func(key, value any) bool) {
+	if !permSeamOn() {
+		m.Range(f)
+		return
+	}
+	var ks []any
+	m.Range(func(k, _ any) bool {
+		ks = append(ks, k)
+		return true
+	})
+	n := len(ks)
+	if n >= 2 {
+		t := reflect.TypeOf(ks[0])
+		okKind := t != nil && canonicalKind(t)
+		for _, k := range ks[1:] {
+			if reflect.TypeOf(k) != t {
+				okKind = false
+			}
+		}
+		if !okKind {
+			abortUnmodelled("unmodelled-syncmap-keys")
+		}
+		sort.Slice(ks, func(i, j int) bool {
+			return lessValue(reflect.ValueOf(ks[i]), reflect.ValueOf(ks[j]))
+		})
+	}
+	code, ok := permFor(site, n)
+	order := make([]int, n)
+	for i := range order {
+		order[i] = i
+	}
+	if ok && n >= 2 {
+		applyPerm(order, code)
+		ident := true
+		for i, j := range order {
+			if i != j {
+				ident = false
+			}
+		}
+		notePerm(site, order, ident)
+	}
+	for _, j := range order {
+		v, present := m.Load(ks[j])
+		if !present {
+			continue
+		}
+		if !f(ks[j], v) {
+			return
+		}
+	}
+}
+
+func canonicalKind(t reflect.Type) bool {
+	switch t.Kind() {
+	case reflect.String, reflect.Bool,
+		reflect.Int, reflect.Int8, reflect.Int16, reflect.Int32, reflect.Int64,
+		reflect.Uint, reflect.Uint8, reflect.Uint16, reflect.Uint32, reflect.Uint64, reflect.Uintptr:
+		return true
+	case reflect.Array:
+		return canonicalKind(t.Elem())
+	case reflect.Struct:
+		for i := 0; i < t.NumField(); i++ {
+			if !canonicalKind(t.Field(i).Type) {
+				return false
+			}
+		}
+		return true
+	}
+	return false
+}
+
+//go:norace
+func permSeamOn() bool { return permOn }
+
+//go:norace
+func abortUnmodelled(kind string) { abort(kind) }
